@@ -657,14 +657,13 @@ def r07_9(ctx):
 MODULAR_AUDIT = {
     # (function, operation): (sites audited, why wrapping is right there)
     ("ByteSlice>::parse_digits", "wrapping_sub"): (1, "digit test c - b'0' < 10 on a byte"),
-    ("common::is_8digits", "wrapping_add"): (1, "SWAR digit test on 8 packed bytes"),
-    ("common::is_8digits", "wrapping_sub"): (1, "SWAR digit test on 8 packed bytes"),
+    # branch-free SWAR kernels (common::is_8digits) are outside this rule
     ("lemire::compute_product_approx", "wrapping_add"): (1, "low word of a 128-bit sum; the carry is recovered by the comparison that follows"),
     ("lemire::power", "wrapping_mul"): (1, "fixed-point log2(10) multiplication of a bounded exponent"),
     ("parse_floating_normal_fast", "wrapping_add"): (2, "low product sum with explicit carry test; rounding increment followed by the carry test"),
     ("parse_floating_normal_fast", "wrapping_sub"): (1, "range trick bits - 1 < limit"),
-    ("parse_number", "wrapping_mul"): (1, "19-digit accumulator; the digit count is checked after the loop and sends longer inputs to the slow path"),
-    ("parse_number", "wrapping_add"): (1, "19-digit accumulator (same)"),
+    # parse_number's 19-digit accumulator (wrapping_mul / wrapping_add) is not listed: its argument - the digit count is
+    # tested after the loop and the accumulator re-computed - is checked structurally (_accumulator_resets)
     ("parse_number", "wrapping_sub"): (1, "0 - significant for a negative integer, after significant <= 2^63 was tested"),
     ("parse_number", "overflowing_mul"): (1, "20th digit: the overflow flag is tested"),
     ("parse_number", "overflowing_add"): (1, "20th digit: the overflow flag is tested"),
@@ -681,6 +680,23 @@ PLAIN_U64_AUDIT = {
     ("parse_float", "Add"): (1, "significant + 1 of a value below 10^19"),
     ("parse_floating_normal_fast", "Add"): (2, "carry of the 128-bit product (after yyjson); lo + hi2 == 2^64 - 1 would be needed to overflow"),
 }
+
+
+def _accumulator_resets(f):
+    """accumulator local -> blocks that reset it to 0 on the true edge of a `count > 19` test (the 19-digit re-scan: a u64
+    holds every 19-digit number, so a wrapped accumulator implies count > 19 and is discarded there)"""
+    out = {}
+    for b, i, s in f.assigns():
+        rv = s["rv"]
+        if rv["k"] == "binop" and rv["op"] == "Gt" and op_int(rv["b"]) == 19:
+            e = bool_switch_edges(f, s["lhs"][0])
+            if not e:
+                continue
+            region = f.reachable_from(e[0], avoid={e[1]}) - f.reachable_from(e[1], avoid={e[0]})
+            for bb, ii, ss in f.assigns():
+                if bb in region and f.dominates(e[0], bb) and not ss["lhs"][1] and ss["rv"]["k"] == "use" and op_int(ss["rv"]["op"]) == 0 and ss["rv"]["op"].get("ty") == "u64":
+                    out.setdefault(ss["lhs"][0], set()).add(bb)
+    return out
 
 
 def r07_10(ctx):
@@ -713,17 +729,36 @@ def r07_10(ctx):
                f"{c} site(s) the interval analysis cannot bound, audited {allowed}: {why}" if c <= allowed else
                f"{c} unbounded u64 {k[1]} site(s) in {k[0]}, {allowed} audited: the significand can overflow (panic with overflow checks, silent wrap-around without)")
     cnt = collections.Counter()
+    discharged = collections.Counter()
     where = {}
     for f in prog.fns.values():
         if f.crate != "sonic_number":
             continue
         owner = prog.fns.get(f.parent_fn, f) if f.parent_fn else f
+        # a branch-free leaf of pure word arithmetic (is_8digits and its kind) is a SWAR kernel: modular by design, not decided here
+        kernel = not any(t["k"] == "switch" for b, t in f.terms()) and all("core::num" in t["callee"] for b, t in f.calls())
+        resets = _accumulator_resets(f)
         for b, t in f.calls():
             nm = t["callee"].rsplit("::", 1)[-1]
             if nm.startswith(("wrapping_", "overflowing_", "unchecked_")) and "core::num" in t["callee"] and nm not in ("wrapping_shr", "wrapping_shl"):
+                if kernel:
+                    ctx.counts["modular sites in branch-free SWAR kernels (not decided)"] = ctx.counts.get("modular sites in branch-free SWAR kernels (not decided)", 0) + 1
+                    continue
                 key = (norm_path(owner.id).split("::", 1)[1], nm)
                 cnt[key] += 1
                 where.setdefault(key, f.loc(t["ln"]))
+                # the accumulator argument, checked structurally: the wrapped value only goes into an accumulator that the
+                # `count > 19` test (reachable from here, and not before here) throws away and re-computes
+                if nm in ("wrapping_mul", "wrapping_add"):
+                    der = forward_derived(f, {t["dest"][0]}) | {t["dest"][0]}
+                    for _ in range(4):      # through the next steps of the same accumulation (x.wrapping_mul(10).wrapping_add(d))
+                        for bb, tt in f.calls():
+                            if "core::num" in tt["callee"] and tt["callee"].rsplit("::", 1)[-1] in ("wrapping_mul", "wrapping_add") and any(op_local(a) in der for a in tt["args"]):
+                                der |= forward_derived(f, {tt["dest"][0]}) | {tt["dest"][0]}
+                    for acc, rblocks in resets.items():
+                        if acc in der and all(rb in f.reachable_from(b) and b not in f.reachable_from(rb) for rb in rblocks):
+                            discharged[key] += 1
+                            break
                 if nm.startswith("overflowing_"):
                     # the flag (.1) must reach a branch
                     d = t["dest"][0]
@@ -742,6 +777,7 @@ def r07_10(ctx):
     for key, c in sorted(cnt.items()):
         hit = [(k, v) for k, v in MODULAR_AUDIT.items() if key[0].endswith(k[0]) and key[1] == k[1]]
         allowed = hit[0][1][0] if hit else 0
+        c -= discharged[key]
         ctx.ob("R07.10", f"modular-arithmetic:{key[0]}:{key[1]}", c <= allowed, where[key],
                (f"{c} site(s), audited {allowed}: {hit[0][1][1]}" if hit and c <= allowed else
                 f"{c} site(s) of {key[1]} in {key[0]}, {allowed} audited: a value that wrapped modulo 2^64 is used in the conversion without an audited overflow argument"))
